@@ -59,13 +59,20 @@ fn process(kind: &str, bytes: &Arc<Vec<u8>>, armored: bool, opener: &Opener, sch
     match kind {
         "msg" => {
             let (input, l) = mk();
-            let spec = ReadSpec { armor: armored, opener: opener.clone(), consumer, verifiers: verifiers.to_vec(), max: 1 << 22, streaming_v1: false, v1_limit: None };
+            let spec = ReadSpec { armor: armored, opener: opener.clone(), consumer, verifiers: verifiers.to_vec(), max: 1 << 22, streaming_v1: false, v1_limit: None, opts: 0 };
             let _ = workload::read_message(input, &spec);
             note(&l);
+            // non-standard containers the recipient opted into (GnuPG AEAD + v5 SKESK, legacy SED)
+            if !matches!(opener, Opener::None) {
+                let (input, l) = mk();
+                let spec = ReadSpec { armor: armored, opener: opener.clone(), consumer, verifiers: verifiers.to_vec(), max: 1 << 22, streaming_v1: false, v1_limit: None, opts: 3 };
+                let _ = workload::read_message(input, &spec);
+                note(&l);
+            }
             // streaming SEIPDv1 mode releases unauthenticated data to the inner parsers
             if let Opener::SessionKey(_) = opener {
                 let (input, l) = mk();
-                let spec = ReadSpec { armor: armored, opener: opener.clone(), consumer, verifiers: verifiers.to_vec(), max: 1 << 22, streaming_v1: true, v1_limit: None };
+                let spec = ReadSpec { armor: armored, opener: opener.clone(), consumer, verifiers: verifiers.to_vec(), max: 1 << 22, streaming_v1: true, v1_limit: None, opts: 0 };
                 let _ = workload::read_message(input, &spec);
                 note(&l);
             }
@@ -563,6 +570,12 @@ fn gen_octets(ctx: &GenCtx) -> Vec<Value> {
             }
         }
     }
+    // GnuPG / LibrePGP containers (accepted when the recipient enabled them): v5 SKESK and OCB packet
+    for pkt in 0..2 {
+        for off in 0..24 {
+            plans.push(json!({"what":"gnupg_aead","pkt": pkt, "off": off}));
+        }
+    }
     // secret keys: octets after the public part
     for key in ["ed25519-v4-locked", "ed25519-v6-locked", "ed25519-v4", "ed25519-v6", "rsa-v4", "p256-v4"] {
         for off in 0..26 {
@@ -609,6 +622,14 @@ fn run_octets(plan: &Value, rec: &mut Rec) {
             let _ = cfg;
             let Ok(inner) = inner else { return };
             (inner, jusize(plan, "pkt"), Opener::None, "msg")
+        }
+        "gnupg_aead" => {
+            // LibrePGP draft test vector: SKESK v5 (AES128/OCB, iterated S2K) + OCB encrypted data, password "password"
+            let v = hex::decode(concat!(
+                "c33d05070203089f0b7da3e5ea64779099e326e5400a90936cefb4e8eba08c6773716d1f2714540a38fcac529949dac529d3de31e15b4aeb729e330033dbed",
+                "d44901070 20e5ed2bc1e470abe8f1d644c7a6c8a567b0f7701196611a154ba9c2574cd056284a8ef68035c623d93cc708a43211bb6eaf2b27f7c18d571bcd83b20add3a08b73af15b9a098"
+            ).replace(' ', "")).unwrap_or_default();
+            (v, jusize(plan, "pkt"), Opener::Password("password".into()), "msg")
         }
         "cert_packets" => (keys::get(jstr(plan, "key")).public.to_bytes().unwrap_or_default(), jusize(plan, "pkt"), Opener::None, "pubkey"),
         _ => {
